@@ -51,6 +51,12 @@ reg("C13",
     "Trusted: vf/ref/optionaltags.py (own transcription of the June-2020 rules); 'no more content in parent' == next token is an end tag or stream end. Two known findings are demanded by the repo's own test data.",
     "DESIGN.md §3 C13")
 
+reg("C03",
+    "fuzzing-style property-based testing: Hypothesis bytes/Unicode/markup soup + parameterised pathological depth/length families through every builder/namespacing/document-or-fragment/container/scripting combination; crash oracle + document-skeleton validity predicate",
+    "Exploration: no exception of any type may escape parse()/parseFragment(); documents must have the skeleton doctype?/comments/html(head, body|frameset). ~70 nesting units x prefixes x closers at N up to 3500 (thorough 20000) reach depth-related failures; a watchdog turns hangs into 'inconclusive'. Held on everything explored.",
+    "Termination itself is not decided. Known finding: the standard's own algorithm can put a reconstructed formatting element after frameset under html (classifier: the reference tree has the same anomaly).",
+    "DESIGN.md §3 C03")
+
 NOT_APPLICABLE = {}
 
 
